@@ -14,6 +14,8 @@ import FastorModel.Driver.Horizontal
 import FastorModel.Driver.Layout
 import FastorModel.Driver.QR
 import FastorModel.Driver.QRF
+import FastorModel.Driver.LU
+import FastorModel.Driver.Solve
 /-
   `fmodel`: line-protocol driver.  Reads one case per line on stdin, prints the model's observables
   for it.  The harness prints the implementation's observables for the same case in the same format.
@@ -54,6 +56,10 @@ def step (line : String) : String :=
   | "mapops" :: rest => runMapops (parseKV rest)
   | "qr" :: rest => runQR (parseKV rest)
   | "qrf" :: rest => runQRF (parseKV rest)
+  | "lu" :: rest => runLU (parseKV rest)
+  | "solve" :: rest => runSolve (parseKV rest)
+  | "fsub" :: rest => runFsub (parseKV rest)
+  | "bsub" :: rest => runBsub (parseKV rest)
   | _ => "bad-op"
 
 partial def loop (h : IO.FS.Stream) (out : IO.FS.Stream) : IO Unit := do
